@@ -150,6 +150,7 @@ int main()
                 else if (f[0] == "m") { res = "\"op\":\"more\",\"a\":0"; res += std::string(",\"v\":") + U::B(rcv->hasMoreData()); }
                 else { res = "\"op\":\"unknown\",\"a\":0"; ok = false; }
             } catch (...) { ok = false; }
+            if (!ok) res += ",\"v\":[]";
             os << (first ? "" : ",") << "{" << res << ",\"ok\":" << U::B(ok) << "}";
             first = false;
             if (!ok) break;
